@@ -63,7 +63,7 @@ Definition sub_ok (h : list st) (c : st) (inp : bool) (x : sub) : Prop :=
   (inp = true -> unsub x = false) /\
   bclosed x = unsub x /\
   (unsub x = true -> cancelled x = true) /\
-  (wclosed x = true -> cancelled x = true /\ sg x = SLive /\ (hand x = None -> unsub x = true /\ bch x = [])) /\
+  (wclosed x = true -> unsub x = true /\ bch x = [] /\ hand x = None /\ sg x = SLive) /\
   (gotclosed x = true -> wclosed x = true /\ wch x = []) /\
   (sg x = SReg -> got x = [] /\ wch x = [] /\ hand x = None /\ wclosed x = false /\ gotclosed x = false) /\
   reg_at x <= endp (length h) x /\ endp (length h) x <= length h /\
@@ -93,30 +93,31 @@ Lemma ok_cancel h c inp x :
 Proof. destruct x as [sg0 bch0 bclosed0 hand0 wch0 wclosed0 cancelled0 unsub0 dropped0 got0 gotclosed0 reg_at0 read_at0 unsub_at0]. unf. intros H. fin2. Qed.
 
 Lemma ok_take h c inp x v r :
-  sg x = SLive -> hand x = None -> bch x = v :: r -> wclosed x = false -> sub_ok h c inp x ->
+  sg x = SLive -> hand x = None -> bch x = v :: r -> sub_ok h c inp x ->
   sub_ok h c inp (mkSub SLive r (bclosed x) (Some v) (wch x) (wclosed x) (cancelled x) (unsub x)
-                        (dropped x) (got x) (gotclosed x) (reg_at x) (read_at x) (unsub_at x)).
-Proof. destruct x as [sg0 bch0 bclosed0 hand0 wch0 wclosed0 cancelled0 unsub0 dropped0 got0 gotclosed0 reg_at0 read_at0 unsub_at0]. unf. intros -> -> -> -> H. fin2. Qed.
-
-Lemma ok_put h c inp x v :
-  hand x = Some v -> wch x = [] -> wclosed x = false -> sub_ok h c inp x ->
-  sub_ok h c inp (mkSub (sg x) (bch x) (bclosed x) None [v] (wclosed x) (cancelled x) (unsub x)
                         (dropped x) (got x) (gotclosed x) (reg_at x) (read_at x) (unsub_at x)).
 Proof. destruct x as [sg0 bch0 bclosed0 hand0 wch0 wclosed0 cancelled0 unsub0 dropped0 got0 gotclosed0 reg_at0 read_at0 unsub_at0]. unf. intros -> -> -> H. fin2. Qed.
 
-(* the repaired forwarder gives up: the value stays in [hand] for good, the wrapped channel is closed *)
-Lemma ok_abort h c inp x v :
-  sg x = SLive -> hand x = Some v -> cancelled x = true -> wclosed x = false -> sub_ok h c inp x ->
-  sub_ok h c inp (mkSub SLive (bch x) (bclosed x) (Some v) (wch x) true true (unsub x)
+Lemma ok_put h c inp x v :
+  hand x = Some v -> wch x = [] -> sub_ok h c inp x ->
+  sub_ok h c inp (mkSub (sg x) (bch x) (bclosed x) None [v] (wclosed x) (cancelled x) (unsub x)
                         (dropped x) (got x) (gotclosed x) (reg_at x) (read_at x) (unsub_at x)).
-Proof. destruct x as [sg0 bch0 bclosed0 hand0 wch0 wclosed0 cancelled0 unsub0 dropped0 got0 gotclosed0 reg_at0 read_at0 unsub_at0]. unf. intros -> -> -> -> H. fin2. Qed.
+Proof. destruct x as [sg0 bch0 bclosed0 hand0 wch0 wclosed0 cancelled0 unsub0 dropped0 got0 gotclosed0 reg_at0 read_at0 unsub_at0]. unf. intros -> -> H. fin2. Qed.
+
+(* the repaired forwarder discards the value it holds: from then on the subscriber counts as one that
+   did not keep up (every clause about the stream is conditional on [dropped = false]) *)
+Lemma ok_abort h c inp x v :
+  sg x = SLive -> hand x = Some v -> cancelled x = true -> sub_ok h c inp x ->
+  sub_ok h c inp (mkSub SLive (bch x) (bclosed x) None (wch x) (wclosed x) true (unsub x)
+                        true (got x) (gotclosed x) (reg_at x) (read_at x) (unsub_at x)).
+Proof. destruct x as [sg0 bch0 bclosed0 hand0 wch0 wclosed0 cancelled0 unsub0 dropped0 got0 gotclosed0 reg_at0 read_at0 unsub_at0]. unf. intros -> -> -> H. fin2. Qed.
 
 Lemma ok_close h c inp x :
   sg x = SLive -> hand x = None -> bch x = [] -> bclosed x = true -> wclosed x = false ->
   sub_ok h c inp x ->
   sub_ok h c inp (mkSub SLive [] true None (wch x) true (cancelled x) (unsub x)
                         (dropped x) (got x) (gotclosed x) (reg_at x) (read_at x) (unsub_at x)).
-Proof. destruct x as [sg0 bch0 bclosed0 hand0 wch0 wclosed0 cancelled0 unsub0 dropped0 got0 gotclosed0 reg_at0 read_at0 unsub_at0]. unf. intros -> -> -> -> -> H. fin2; auto. Qed.
+Proof. destruct x as [sg0 bch0 bclosed0 hand0 wch0 wclosed0 cancelled0 unsub0 dropped0 got0 gotclosed0 reg_at0 read_at0 unsub_at0]. unf. intros -> -> -> -> -> H. fin2. Qed.
 
 Lemma ok_recv h c inp x w r :
   sg x = SLive -> wch x = w :: r -> sub_ok h c inp x ->
@@ -280,14 +281,13 @@ Proof.
   - (* LFwdTake *)
     apply with_sub_inv in H as (x & y & Hx & Hg & ->).
     destruct (sg x) eqn:E1; [discriminate|]. destruct (hand x) eqn:E2; [discriminate|].
-    destruct (bch x) as [|v r] eqn:E3; [discriminate|]. destruct (wclosed x) eqn:E4; [discriminate|].
-    inversion Hg; subst; clear Hg.
-    apply (inv_upd s i x _ (pend s) Hi Hx); [reflexivity|]. rewrite <- E4. now apply ok_take.
+    destruct (bch x) as [|v r] eqn:E3; [discriminate|]. inversion Hg; subst; clear Hg.
+    apply (inv_upd s i x _ (pend s) Hi Hx); [reflexivity|]. now apply ok_take.
   - (* LFwdPut *)
     apply with_sub_inv in H as (x & y & Hx & Hg & ->).
     destruct (hand x) as [v|] eqn:E2; [|discriminate]. destruct (wch x) eqn:E3; [|discriminate].
-    destruct (wclosed x) eqn:E4; [discriminate|]. inversion Hg; subst; clear Hg.
-    apply (inv_upd s i x _ (pend s) Hi Hx); [reflexivity|]. rewrite <- E4. now apply ok_put.
+    inversion Hg; subst; clear Hg.
+    apply (inv_upd s i x _ (pend s) Hi Hx); [reflexivity|]. now apply ok_put.
   - (* LFwdClose *)
     apply with_sub_inv in H as (x & y & Hx & Hg & ->).
     destruct (sg x) eqn:E1; [discriminate|]. destruct (hand x) eqn:E2; [discriminate|].
@@ -323,8 +323,8 @@ Proof.
   - (* LFwdAbort *)
     apply with_sub_inv in H as (x & y & Hx & Hg & ->).
     destruct (sg x) eqn:E1; [discriminate|]. destruct (hand x) as [v|] eqn:E2; [|discriminate].
-    destruct (cancelled x) eqn:E3; [|discriminate]. destruct (wclosed x) eqn:E4; [discriminate|].
-    cbn in Hg. inversion Hg; subst; clear Hg.
+    destruct (wch x) as [|w r] eqn:E4; [discriminate|].
+    destruct (cancelled x) eqn:E3; [|discriminate]. inversion Hg; subst; clear Hg. rewrite <- E4.
     apply (inv_upd s i x _ (pend s) Hi Hx); [reflexivity|]. now apply (ok_abort _ _ _ x v).
 Qed.
 
@@ -351,30 +351,20 @@ Proof.
   unfold expected_stream. cbn [app] in Hf. symmetry. exact Hf.
 Qed.
 
-(* once the consumer saw the channel closed: the context was cancelled and what it received is a
-   prefix of the stream; it is the COMPLETE stream up to the un-registration when the forwarder ended
-   because the manager channel was closed ([hand x = None]: it did not give up holding a value) *)
+(* once the consumer saw the channel closed: the context was cancelled and the stream is complete *)
 Lemma stream_closed cfg ls s i x :
   run (step cfg) init ls = Some s -> nth_error (subs s) i = Some x -> gotclosed x = true ->
-  cancelled x = true /\ sg x = SLive /\
-  (dropped x = false ->
-   exists rest, expected_stream (hist s) (reg_at x) (read_at x) (endp (length (hist s)) x) = got x ++ rest) /\
-  (hand x = None ->
-   unsub x = true /\
-   (dropped x = false -> got x = expected_stream (hist s) (reg_at x) (read_at x) (unsub_at x))).
+  cancelled x = true /\ unsub x = true /\
+  (dropped x = false -> got x = expected_stream (hist s) (reg_at x) (read_at x) (unsub_at x)).
 Proof.
   intros Hr Hx Hg. apply inv_reach in Hr as [_ Hs]. specialize (Hs i x Hx).
   unfold sub_ok, flow, head_part, endp in Hs.
   destruct Hs as (K1 & K2 & K3 & K4 & K5 & K6 & _ & _ & _ & Hf).
-  destruct (K5 Hg) as [Hw Hwch]. destruct (K4 Hw) as (Hc & Hl & Hn).
-  split; [exact Hc|]. split; [exact Hl|]. split.
-  - intros Hd. specialize (Hf Hd). rewrite Hl in Hf.
-    exists (wch x ++ olist (hand x) ++ bch x ++ (if memn i (pend s) then [cur s] else [])).
-    unfold expected_stream. cbn [app] in Hf. symmetry. exact Hf.
-  - intros Hh. destruct (Hn Hh) as [Hu Hb]. split; [exact Hu|]. intros Hd. specialize (Hf Hd).
-    rewrite Hl, Hu, Hwch, Hb, Hh in Hf.
-    destruct (memn i (pend s)); [specialize (K1 eq_refl); congruence|].
-    cbn [app olist] in Hf. rewrite app_nil_r in Hf. exact Hf.
+  destruct (K5 Hg) as [Hw Hwch]. destruct (K4 Hw) as (Hu & Hb & Hh & Hl).
+  split; [auto|]. split; [auto|]. intros Hd. specialize (Hf Hd).
+  rewrite Hl, Hu, Hwch, Hb, Hh in Hf.
+  destruct (memn i (pend s)); [specialize (K1 eq_refl); congruence|].
+  cbn [app olist] in Hf. rewrite app_nil_r in Hf. exact Hf.
 Qed.
 
 (* a channel is closed only after its context was cancelled *)
@@ -383,7 +373,7 @@ Lemma closed_only_after_cancel cfg ls s i x :
 Proof.
   intros Hr Hx Hw. apply inv_reach in Hr as [_ Hs]. specialize (Hs i x Hx).
   unfold sub_ok in Hs. destruct Hs as (K1 & K2 & K3 & K4 & _).
-  destruct (K4 Hw) as (Hu & _). exact Hu.
+  destruct (K4 Hw) as (Hu & _). auto.
 Qed.
 
 (* ... and it IS closed after the cancel, as far as a safety argument can say it: once the context
@@ -401,26 +391,23 @@ Lemma close_progress cfg ls s i x :
 Proof.
   intros Hr Hx Hc Hl Hg Hp. apply inv_reach in Hr as [_ Hs]. specialize (Hs i x Hx).
   unfold sub_ok in Hs. destruct Hs as (_ & K2 & _).
-  assert (Hrecv : forall w r, wch x = w :: r -> exists l, In l (pipeline_labels i) /\ step cfg s l <> None).
-  { intros w r Ew. exists (LRecv i w). split.
-    - unfold pipeline_labels. apply in_or_app. right. apply in_map. destruct w; cbn; tauto.
-    - unfold step. cbn [stepx]. unfold with_sub. rewrite Hx, Hl, Ew, st_eqb_refl. discriminate. }
-  destruct (wclosed x) eqn:Ewc.
-  - destruct (wch x) as [|w r] eqn:Ew; [|now apply (Hrecv w r)].
-    exists (LRecvClosed i). split; [cbn; tauto|]. unfold step. cbn [stepx]. unfold with_sub.
-    rewrite Hx, Hl, Ew, Ewc, Hg. discriminate.
-  - destruct (unsub x) eqn:Eu.
-    + destruct (wch x) as [|w r] eqn:Ew; [|now apply (Hrecv w r)].
-      destruct (hand x) as [v|] eqn:Eh.
-      * exists (LFwdPut i). split; [cbn; tauto|]. unfold step. cbn [stepx]. unfold with_sub.
-        rewrite Hx, Eh, Ew, Ewc. discriminate.
+  destruct (unsub x) eqn:Eu.
+  - destruct (wch x) as [|w r] eqn:Ew.
+    + destruct (hand x) as [v|] eqn:Eh.
+      * exists (LFwdPut i). split; [cbn; tauto|]. unfold step. cbn [stepx]. unfold with_sub. rewrite Hx, Eh, Ew. discriminate.
       * destruct (bch x) as [|v r] eqn:Eb.
-        -- exists (LFwdClose i). split; [cbn; tauto|]. unfold step. cbn [stepx]. unfold with_sub.
-           rewrite Hx, Hl, Eh, Eb, K2, Ewc. discriminate.
+        -- destruct (wclosed x) eqn:Ewc.
+           ++ exists (LRecvClosed i). split; [cbn; tauto|]. unfold step. cbn [stepx]. unfold with_sub.
+              rewrite Hx, Hl, Ew, Ewc, Hg. discriminate.
+           ++ exists (LFwdClose i). split; [cbn; tauto|]. unfold step. cbn [stepx]. unfold with_sub.
+              rewrite Hx, Hl, Eh, Eb, K2, Ewc. discriminate.
         -- exists (LFwdTake i). split; [cbn; tauto|]. unfold step. cbn [stepx]. unfold with_sub.
-           rewrite Hx, Hl, Eh, Eb, Ewc. discriminate.
-    + exists (LUnsub i). split; [cbn; tauto|]. unfold step. cbn [stepx]. rewrite (Hp eq_refl). cbn [is_nil].
-      unfold with_sub. rewrite Hx, Hc, Eu. discriminate.
+           rewrite Hx, Hl, Eh, Eb. discriminate.
+    + exists (LRecv i w). split.
+      * unfold pipeline_labels. apply in_or_app. right. apply in_map. destruct w; cbn; tauto.
+      * unfold step. cbn [stepx]. unfold with_sub. rewrite Hx, Hl, Ew, st_eqb_refl. discriminate.
+  - exists (LUnsub i). split; [cbn; tauto|]. unfold step. cbn [stepx]. rewrite (Hp eq_refl). cbn [is_nil].
+    unfold with_sub. rewrite Hx, Hc, Eu. discriminate.
 Qed.
 
 (* the two shapes the property allows: s0 :: changes, and the same with one leading duplicate *)
